@@ -410,4 +410,315 @@ theorem signAtts_exact {s : Inst} (h : ExactInv s) (c : String) (items : List (A
               exact hroot x hx
           · cases hp
 
+theorem signAtt_exact {s : Inst} (h : ExactInv s) (c : String) (a : Addr) (d : AttData) (f : Faults)
+    (hff : f.fetchFail = []) (hsf : f.storeFail = false) (hroot : d.signingRoot ≠ none) :
+    ExactInv (signAtt s c a d f false).1 := by
+  unfold signAtt
+  split
+  · exact h
+  · split
+    · exact h
+    · rename_i acct _
+      have hin := lastVote_inI64 s.attLog acct.pubkey h.small.1
+      rw [onAttest_clean s.db acct.pubkey d.req f _ hff hsf (h.att acct.pubkey)]
+      by_cases hv : (attChecks d.req (lastVote s.attLog acct.pubkey)).1 = .approved
+      · simp only [hv, ↓reduceIte]
+        cases hsr : d.signingRoot with
+        | none => exact absurd hsr hroot
+        | some root =>
+          simp only [Bool.false_eq_true, ↓reduceIte]
+          have happ := attChecks_approved (r := d.req) (st := lastVote s.attLog acct.pubkey)
+            (st' := (attChecks d.req (lastVote s.attLog acct.pubkey)).2) (by rw [← hv])
+          have hi : InI64 (attChecks d.req (lastVote s.attLog acct.pubkey)).2.src ∧
+              InI64 (attChecks d.req (lastVote s.attLog acct.pubkey)).2.tgt :=
+            attChecks_inI64 (r := d.req) (st := lastVote s.attLog acct.pubkey) rfl hin.1 hin.2
+          refine exact_att_extend h _ [(acct.pubkey, d)] (by simp) ?_ ?_ ?_ ?_
+          · intro e he; simp at he; subst he; exact ⟨happ.1, happ.2.1⟩
+          · intro e he; simp at he; subst he
+            rw [fetchAtt_put_att_same _ _ _ hi.1 hi.2, happ.2.2.1]; rfl
+          · intro k hk
+            have : k ≠ acct.pubkey := fun e => hk (acct.pubkey, d) (by simp) e.symm
+            exact fetchAtt_put_att_other _ _ _ _ this
+          · intro k; exact fetchProp_put_att _ _ _ _
+      · simp only [hv, ↓reduceIte]
+        exact h
+
+/-! ### proposals -/
+
+theorem onPropose_clean (db : Db) (pk : Bytes) (r : PropReq) (f : Faults) (st : Int)
+    (hff : f.fetchFail = []) (hsf : f.storeFail = false) (hf : fetchProp db pk false = some st) :
+    (onPropose db pk r f = (.approved, db.put (propKey pk) (encodeProp (i64 r.slot))) ∧ r.slot ≤ maxI64) ∨
+    onPropose db pk r f = (.denied, db) := by
+  unfold onPropose
+  simp only [hff, List.contains_nil, hf, storeOne, hsf]
+  split
+  · right; rfl
+  · split
+    · right; rfl
+    · split
+      · right; rfl
+      · left; exact ⟨by simp, by omega⟩
+
+theorem signProp_exact {s : Inst} (h : ExactInv s) (c : String) (a : Addr) (d : PropData) (f : Faults)
+    (hff : f.fetchFail = []) (hsf : f.storeFail = false) (hroot : d.signingRoot ≠ none) :
+    ExactInv (signProp s c a d f false).1 := by
+  unfold signProp
+  split
+  · exact h
+  · split
+    · exact h
+    · rename_i acct _
+      rcases onPropose_clean s.db acct.pubkey { domain := d.domain.getD [], slot := d.slot } f _ hff hsf
+        (h.prop acct.pubkey) with ⟨hon, hsl⟩ | hon
+      · rw [hon]
+        simp only at hsl ⊢
+        cases hsr : d.signingRoot with
+        | none => exact absurd hsr hroot
+        | some root =>
+          simp only [Bool.false_eq_true, ↓reduceIte]
+          have hi : i64 d.slot = (d.slot : Int) := i64_small _ hsl
+          have hin : InI64 (i64 d.slot) := by
+            rw [hi]; unfold InI64 maxI64 two63 at *; constructor <;> omega
+          refine ⟨?_, ?_, h.small.1, ?_⟩
+          · intro k
+            simp only
+            rw [fetchAtt_put_prop, h.att k]
+          · intro k
+            simp only
+            by_cases hk : k = acct.pubkey
+            · subst hk
+              rw [fetchProp_put_prop_same _ _ _ hin, lastSlot_append_same _ (acct.pubkey, d), hi]
+            · rw [fetchProp_put_prop_other _ _ _ _ hk,
+                lastSlot_append_other _ (acct.pubkey, d) k (fun e => hk e.symm), h.prop k]
+          · intro e he
+            simp only at he
+            rcases List.mem_append.mp he with h1 | h1
+            · exact h.small.2 e h1
+            · simp at h1; subst h1; exact hsl
+      · rw [hon]; exact h
+
+/-! ### histories -/
+
+theorem exactInv_of_frame {s s' : Inst} (h : ExactInv s) (h1 : s'.db = s.db)
+    (h2 : s'.attLog = s.attLog) (h3 : s'.propLog = s.propLog) : ExactInv s' :=
+  ⟨by rw [h1, h2]; exact h.att, by rw [h1, h3]; exact h.prop, by rw [h2, h3]; exact h.small⟩
+
+theorem step_exactInv (s : Inst) (op : Op) (h : ExactInv s) (hc : op.clean) : ExactInv (step s op).1 := by
+  cases op with
+  | att c a d f => exact signAtt_exact h c a d f hc.1 hc.2.1 hc.2.2
+  | atts c items f => exact signAtts_exact h c items f hc.1 hc.2.1 hc.2.2
+  | prop c a d f => exact signProp_exact h c a d f hc.1 hc.2.1 hc.2.2
+  | sign c ip a d =>
+    have hf := signGeneric_frame s c ip a d false
+    exact exactInv_of_frame h hf.1 hf.2.1 hf.2.2
+  | msign c ip items =>
+    have hf := multisign_frame s c ip items []
+    exact exactInv_of_frame h hf.1 hf.2.1 hf.2.2
+  | restart => exact h
+
+theorem run_exactInv (ops : List Op) (s : Inst) (h : ExactInv s) (hc : ∀ op ∈ ops, op.clean) :
+    ExactInv (run s ops) := by
+  induction ops generalizing s with
+  | nil => exact h
+  | cons op rest ih =>
+    exact ih _ (step_exactInv s op h (hc op (by simp))) (fun o ho => hc o (by simp [ho]))
+
+/-! ## the configuration never changes -/
+
+theorem signAtt_cfg (s : Inst) (c : String) (a : Addr) (d : AttData) (f : Faults) (sf : Bool) :
+    (signAtt s c a d f sf).1.cfg = s.cfg := by
+  unfold signAtt
+  repeat' split
+  all_goals rfl
+
+theorem signProp_cfg (s : Inst) (c : String) (a : Addr) (d : PropData) (f : Faults) (sf : Bool) :
+    (signProp s c a d f sf).1.cfg = s.cfg := by
+  unfold signProp
+  repeat' split
+  all_goals rfl
+
+theorem signAtts_cfg (s : Inst) (c : String) (items : List (Addr × AttData)) (f : Faults)
+    (sf : List Nat) : (signAtts s c items f sf).1.cfg = s.cfg := by
+  unfold signAtts attestKeyed finishKeyed
+  simp only
+  repeat' split
+  all_goals rfl
+
+theorem signGeneric_cfg (s : Inst) (c ip : String) (a : Addr) (d : SignData) (sf : Bool) :
+    (signGeneric s c ip a d sf).1.cfg = s.cfg := by
+  unfold signGeneric
+  repeat' split
+  all_goals rfl
+
+theorem multisign_cfg (s : Inst) (c ip : String) (items : List (Addr × SignData)) (sf : List Nat) :
+    (multisign s c ip items sf).1.cfg = s.cfg := by
+  unfold multisign
+  simp only
+  repeat' split
+  all_goals rfl
+
+theorem step_cfg (s : Inst) (op : Op) : (step s op).1.cfg = s.cfg := by
+  cases op with
+  | att c a d f => exact signAtt_cfg s c a d f false
+  | atts c items f => exact signAtts_cfg s c items f []
+  | prop c a d f => exact signProp_cfg s c a d f false
+  | sign c ip a d => exact signGeneric_cfg s c ip a d false
+  | msign c ip items => exact multisign_cfg s c ip items []
+  | restart => rfl
+
+theorem run_cfg (ops : List Op) : ∀ (s : Inst), (run s ops).cfg = s.cfg := by
+  induction ops with
+  | nil => intro s; rfl
+  | cons op rest ih => intro s; exact (ih _).trans (step_cfg s op)
+
+/-! ## consequences -/
+
+/-- C11: the export states exactly the last released slot / source / target of every key (−1 = none) -/
+theorem export_exact (cfg : Config) (ops : List Op) (hc : ∀ op ∈ ops, op.clean) (k : Bytes) :
+    exportKey (run (init cfg []) ops).db k =
+      some { slot := lastSlot (run (init cfg []) ops).propLog k,
+             src := (lastVote (run (init cfg []) ops).attLog k).src,
+             tgt := (lastVote (run (init cfg []) ops).attLog k).tgt } := by
+  have h := run_exactInv ops _ (init_exactInv cfg) hc
+  unfold exportKey
+  rw [h.att k, h.prop k]
+
+theorem lastVote_max (log : List (Bytes × AttData)) (hm : LogMono log) (k : Bytes) :
+    ∀ e ∈ log, e.1 = k →
+      (e.2.tgt : Int) ≤ (lastVote log k).tgt ∧ (e.2.src : Int) ≤ (lastVote log k).src := by
+  intro e he hek
+  have hef : e ∈ log.filter (fun e => e.1 = k) := List.mem_filter.mpr ⟨he, by simpa using hek⟩
+  cases hl : (log.filter (fun e => e.1 = k)).getLast? with
+  | none =>
+    rw [List.getLast?_eq_none_iff.mp hl] at hef
+    cases hef
+  | some z =>
+    have hv : lastVote log k = ⟨(z.2.src : Int), (z.2.tgt : Int)⟩ := by unfold lastVote; rw [hl]
+    have hz := (getLast?_filter_mem _ _ _ hl).2
+    have hzk : z.1 = k := by simpa using hz
+    have hp : (log.filter (fun e => e.1 = k)).Pairwise (fun a b => a.1 = b.1 → VoteLt a.2 b.2) :=
+      List.Pairwise.filter _ hm
+    rw [hv]
+    rcases pairwise_getLast? hp hl e hef with h | h
+    · subst h; simp
+    · have := h (hek.trans hzk.symm)
+      unfold VoteLt at this
+      simp only
+      omega
+
+theorem lastSlot_max (log : List (Bytes × PropData)) (hm : PLogMono log) (k : Bytes) :
+    ∀ e ∈ log, e.1 = k → (e.2.slot : Int) ≤ lastSlot log k := by
+  intro e he hek
+  have hef : e ∈ log.filter (fun e => e.1 = k) := List.mem_filter.mpr ⟨he, by simpa using hek⟩
+  cases hl : (log.filter (fun e => e.1 = k)).getLast? with
+  | none =>
+    rw [List.getLast?_eq_none_iff.mp hl] at hef
+    cases hef
+  | some z =>
+    have hv : lastSlot log k = (z.2.slot : Int) := by unfold lastSlot; rw [hl]
+    have hz := (getLast?_filter_mem _ _ _ hl).2
+    have hzk : z.1 = k := by simpa using hz
+    have hp : (log.filter (fun e => e.1 = k)).Pairwise (fun a b => a.1 = b.1 → a.2.slot < b.2.slot) :=
+      List.Pairwise.filter _ hm
+    rw [hv]
+    rcases pairwise_getLast? hp hl e hef with h | h
+    · subst h; simp
+    · have := h (hek.trans hzk.symm)
+      omega
+
+/-- the last released attestation of a key is its highest released (any history, faults included) -/
+theorem last_is_max_att (cfg : Config) (ops : List Op) (k : Bytes) :
+    ∀ e ∈ (run (init cfg []) ops).attLog, e.1 = k →
+      (e.2.tgt : Int) ≤ (lastVote (run (init cfg []) ops).attLog k).tgt ∧
+      (e.2.src : Int) ≤ (lastVote (run (init cfg []) ops).attLog k).src :=
+  lastVote_max _ (run_attInv ops _ (init_attInv cfg [])).mono k
+
+theorem last_is_max_prop (cfg : Config) (ops : List Op) (k : Bytes) :
+    ∀ e ∈ (run (init cfg []) ops).propLog, e.1 = k →
+      (e.2.slot : Int) ≤ lastSlot (run (init cfg []) ops).propLog k :=
+  lastSlot_max _ (run_propInv ops _ (init_propInv cfg [])).mono k
+
+/-! ### liveness -/
+
+theorem attChecks_live (r : AttReq) (st : AttState)
+    (hdom : prefix4 r.domain = domAttester)
+    (hord : r.src < r.tgt ∨ (r.src = 0 ∧ r.tgt = 0))
+    (hs : r.src ≤ maxI64) (ht : r.tgt ≤ maxI64)
+    (habove_t : st.tgt < (r.tgt : Int)) (habove_s : st.src ≤ (r.src : Int)) :
+    attChecks r st = (.approved, ⟨(r.src : Int), (r.tgt : Int)⟩) := by
+  unfold attChecks
+  have h1 : ¬ ((r.src ≠ 0 ∨ r.tgt ≠ 0) ∧ r.tgt ≤ r.src) := by omega
+  have h2 : ¬ (r.src > maxI64 ∨ r.tgt > maxI64) := by omega
+  have h3 : ¬ (st.tgt ≥ 0 ∧ r.tgt ≤ u64 st.tgt) := by
+    intro ⟨h0, hh⟩; have := u64_nonneg _ h0; omega
+  have h4 : ¬ (st.src ≥ 0 ∧ r.src < u64 st.src) := by
+    intro ⟨h0, hh⟩; have := u64_nonneg _ h0; omega
+  simp [hdom, h1, h2, h3, h4, i64_small _ hs, i64_small _ ht]
+
+theorem signAtt_live {s : Inst} (h : ExactInv s) (c : String) (a : Addr) (d : AttData) (acct : Account)
+    (hwf : d.wellFormed = true) (hpc : preCheck s.cfg c a opAttest = .ok acct)
+    (hroot : d.signingRoot ≠ none) (hdom : prefix4 (d.domain.getD []) = domAttester)
+    (hord : d.src < d.tgt ∨ (d.src = 0 ∧ d.tgt = 0)) (hs : d.src ≤ maxI64) (ht : d.tgt ≤ maxI64)
+    (hadv : ∀ e ∈ s.attLog, e.1 = acct.pubkey → e.2.tgt < d.tgt ∧ e.2.src ≤ d.src) :
+    (signAtt s c a d {} false).2.res = .succeeded := by
+  have habove : (lastVote s.attLog acct.pubkey).tgt < (d.tgt : Int) ∧
+      (lastVote s.attLog acct.pubkey).src ≤ (d.src : Int) := by
+    rcases lastVote_cases s.attLog acct.pubkey with ⟨hv, _⟩ | ⟨e, he, hek, hv⟩
+    · rw [hv]; simp only; omega
+    · rw [hv]; have := hadv e he hek; simp only; omega
+  have hchk : attChecks d.req (lastVote s.attLog acct.pubkey) = (.approved, ⟨(d.src : Int), (d.tgt : Int)⟩) :=
+    attChecks_live d.req _ hdom hord hs ht habove.1 habove.2
+  unfold signAtt
+  simp only [hwf, Bool.not_true, Bool.false_eq_true, ↓reduceIte, hpc]
+  rw [onAttest_clean s.db acct.pubkey d.req {} _ rfl rfl (h.att acct.pubkey)]
+  simp only [hchk, ↓reduceIte]
+  cases hsr : d.signingRoot with
+  | none => exact absurd hsr hroot
+  | some root => simp
+
+theorem signProp_live {s : Inst} (h : ExactInv s) (c : String) (a : Addr) (d : PropData) (acct : Account)
+    (hwf : d.wellFormed = true) (hpc : preCheck s.cfg c a opPropose = .ok acct)
+    (hroot : d.signingRoot ≠ none) (hdom : prefix4 (d.domain.getD []) = domProposer) (hs : d.slot ≤ maxI64)
+    (hadv : ∀ e ∈ s.propLog, e.1 = acct.pubkey → e.2.slot < d.slot) :
+    (signProp s c a d {} false).2.res = .succeeded := by
+  have habove : lastSlot s.propLog acct.pubkey < (d.slot : Int) := by
+    rcases lastSlot_cases s.propLog acct.pubkey with ⟨hv, _⟩ | ⟨e, he, hek, hv⟩
+    · rw [hv]; omega
+    · rw [hv]; have := hadv e he hek; omega
+  have h2 : ¬ (d.slot > maxI64) := by omega
+  have h3 : ¬ (lastSlot s.propLog acct.pubkey ≥ 0 ∧ d.slot ≤ u64 (lastSlot s.propLog acct.pubkey)) := by
+    intro ⟨h0, hh⟩; have := u64_nonneg _ h0; omega
+  have hon : onPropose s.db acct.pubkey { domain := d.domain.getD [], slot := d.slot } {} =
+      (.approved, s.db.put (propKey acct.pubkey) (encodeProp (i64 d.slot))) := by
+    unfold onPropose
+    simp [hdom, h2, h.prop acct.pubkey, h3, storeOne]
+  unfold signProp
+  simp only [hwf, Bool.not_true, Bool.false_eq_true, ↓reduceIte, hpc, hon]
+  cases hsr : d.signingRoot with
+  | none => exact absurd hsr hroot
+  | some root => simp
+
+/-- C09 (history level): after any clean history, a well-formed authorised request that advances on
+    everything released so far for its key is signed -/
+theorem live_att (cfg : Config) (ops : List Op) (hc : ∀ op ∈ ops, op.clean)
+    (c : String) (a : Addr) (d : AttData) (acct : Account)
+    (hwf : d.wellFormed = true) (hpc : preCheck cfg c a opAttest = .ok acct)
+    (hroot : d.signingRoot ≠ none) (hdom : prefix4 (d.domain.getD []) = domAttester)
+    (hord : d.src < d.tgt ∨ (d.src = 0 ∧ d.tgt = 0)) (hs : d.src ≤ maxI64) (ht : d.tgt ≤ maxI64)
+    (hadv : ∀ e ∈ (run (init cfg []) ops).attLog, e.1 = acct.pubkey → e.2.tgt < d.tgt ∧ e.2.src ≤ d.src) :
+    (signAtt (run (init cfg []) ops) c a d {} false).2.res = .succeeded := by
+  have h := run_exactInv ops _ (init_exactInv cfg) hc
+  have hcfg : (run (init cfg []) ops).cfg = cfg := run_cfg ops (init cfg [])
+  exact signAtt_live h c a d acct hwf (by rw [hcfg]; exact hpc) hroot hdom hord hs ht hadv
+
+theorem live_prop (cfg : Config) (ops : List Op) (hc : ∀ op ∈ ops, op.clean)
+    (c : String) (a : Addr) (d : PropData) (acct : Account)
+    (hwf : d.wellFormed = true) (hpc : preCheck cfg c a opPropose = .ok acct)
+    (hroot : d.signingRoot ≠ none) (hdom : prefix4 (d.domain.getD []) = domProposer) (hs : d.slot ≤ maxI64)
+    (hadv : ∀ e ∈ (run (init cfg []) ops).propLog, e.1 = acct.pubkey → e.2.slot < d.slot) :
+    (signProp (run (init cfg []) ops) c a d {} false).2.res = .succeeded := by
+  have h := run_exactInv ops _ (init_exactInv cfg) hc
+  have hcfg : (run (init cfg []) ops).cfg = cfg := run_cfg ops (init cfg [])
+  exact signProp_live h c a d acct hwf (by rw [hcfg]; exact hpc) hroot hdom hs hadv
+
 end Dirk
